@@ -1,6 +1,6 @@
 // LD_PRELOAD fault injector for the build-protocol exploration (C12, C13).
 // Watches mutating libc calls on paths below FSINJECT_ROOTS (colon separated prefixes).
-//   FSINJECT_LOG   : append one line per mutation "<pid> <call> <path> <len>"
+//   FSINJECT_LOG   : append one line per mutation "<pid>:<tid> <call> <path> <len>"
 //   FSINJECT_STATE : file holding the shared mutation counter (all processes of the build)
 //   FSINJECT_KILL  : k  -> kill the whole process group right before the k-th mutation
 //   FSINJECT_TEAR  : k  -> if the k-th mutation is a write, perform half of it, then kill
@@ -16,6 +16,7 @@
 #include <sys/file.h>
 #include <sys/stat.h>
 #include <sys/types.h>
+#include <sys/syscall.h>
 #include <unistd.h>
 
 #define MAXFD 4096
@@ -115,7 +116,7 @@ static int mutation(const char *call, const char *path, size_t len) {
         int fd = real_open(log_path, O_WRONLY | O_CREAT | O_APPEND, 0644);
         if (fd >= 0) {
             char line[2600];
-            int n = snprintf(line, sizeof line, "%d %s %s %zu\n", (int)getpid(), call, path, len);
+            int n = snprintf(line, sizeof line, "%d:%ld %s %s %zu\n", (int)getpid(), (long)syscall(SYS_gettid), call, path, len);
             if (real_write(fd, line, n) < 0) { /* ignore */ }
             real_close(fd);
         }
